@@ -240,9 +240,11 @@ Definition accept_spec (cfg : sconfig) (inp : input) : bool :=
 Definition last_moov (bs : list tbox) : option tbox := hd_error (rev (filter (is MOOV) bs)).
 Definition first_mdat (bs : list tbox) : option tbox := hd_error (filter (is MDAT) bs).
 
-(* returned metadata (C02): ftyp, moov, optionally one free box of zeros; explicit sizes; nothing else *)
-Definition metadata_shape (md : bytes) : option (bytes * bytes * N) (* ftyp payload, moov payload, padding box size or 0 *) :=
-  let inp := input_of_bytes md in
+(* returned metadata (C02): ftyp, moov, optionally one free box of zeros; explicit sizes; nothing else.
+   The metadata is given as an input (byte string followed by a run of zeros = [md_input bytes zeros]). *)
+Definition md_input (md : bytes) (zeros : N) : input := input_of_exts (blen md + zeros) [(0, md)].
+
+Definition metadata_shape (inp : input) : option (bytes * bytes * N) (* ftyp payload, moov payload, padding box size or 0 *) :=
   match tile 4 None inp 0 with
   | Some [f; m] =>
       if is FTYP f && is MOOV m then Some (tb_payload inp f, tb_payload inp m, 0) else None
@@ -252,10 +254,9 @@ Definition metadata_shape (md : bytes) : option (bytes * bytes * N) (* ftyp payl
   | _ => None
   end.
 (* none of the top-level headers of md uses the to-end-of-file size *)
-Definition explicit_sizes (md : bytes) : bool :=
-  let inp := input_of_bytes md in
+Definition explicit_sizes (inp : input) : bool :=
   match tile 4 None inp 0 with
-  | Some bs => forallb (fun b => negb (be2n (slice md (tb_off b) 4) =? 0)) bs
+  | Some bs => forallb (fun b => negb (be2n (iread inp (tb_off b) 4) =? 0)) bs
   | None => false
   end.
 
